@@ -730,6 +730,11 @@ func (c *checker) handleViolations(bin string, br *batchResult, extraEnv []strin
 	if br.domain != "main" {
 		seen = map[string]bool{}
 	}
+	hvStart := time.Now()
+	hvLimit := 4 * time.Minute
+	if c.tier == "thorough" {
+		hvLimit = 15 * time.Minute
+	}
 	reported := 0
 	o := genOptsFor(c.tier, br.domain, runtime.GOARCH)
 	o.churnBias, o.growBias = false, false
@@ -751,6 +756,10 @@ func (c *checker) handleViolations(bin string, br *batchResult, extraEnv []strin
 		}
 		if seen[sig] || reported >= 3 {
 			continue
+		}
+		if time.Since(hvStart) > hvLimit {
+			c.inconclusive = append(c.inconclusive, fmt.Sprintf("%d more candidate run(s) were not examined: the time set aside for confirming and minimising was used up", len(cands)))
+			break
 		}
 		c.raceCrashMine = false
 		tr := genTrace(c.prop, c.seed, cd.run, o)
